@@ -49,6 +49,11 @@ Definition closed (g : graph) : Prop :=
 Definition closedb (g : graph) : bool :=
   forallb (fun e => forallb (has g) (snd (snd e))) g.
 
+(** the history below [roots] is complete in the store: every commit reachable from
+    the roots (the roots included) is present.  [closed g] and present roots imply it. *)
+Definition complete (g : graph) (roots : list id) : Prop :=
+  forall x, reach g roots x -> lookup g x <> None.
+
 (** worklist enumeration with a seen set: an id is pushed at most once *)
 Fixpoint push_new (ps q seen : list id) : list id * list id :=
   match ps with
@@ -89,3 +94,9 @@ Definition common_ancestor (g : graph) (cs : list id) (x : id) : Prop :=
   forall c, In c cs -> reach g [c] x.
 Definition common_ancestorb (g : graph) (cs : list id) (x : id) : bool :=
   forallb (fun c => reachb g [c] x) cs.
+
+(** the input at position [i] is [c], and it is an ancestor-or-self of the inputs at
+    all other positions *)
+Definition base_input (g : graph) (cs : list id) (i : nat) (c : id) : Prop :=
+  nth_error cs i = Some c /\
+  forall j d, nth_error cs j = Some d -> j <> i -> reach g [d] c.
